@@ -170,4 +170,37 @@ example : mapPipeline exTree { chunkSize := 2, nProc := 2 } exVote [7, 3, 9] [0,
   no_error_plain exTree { chunkSize := 2, nProc := 2 } exVote [7, 3, 9] [0, 1, 2] [1, 0] rfl rfl
     exTree_wf (exVote_ok _) rfl (by decide) (by decide) (by decide) (by decide)
 
+/-- "this also holds when the taxonomy is flattened ..., in which case the
+levels that were not voted on are inferred from the voted descendant and
+flagged as not directly assigned": a flattened run on a well-formed stored tree
+NEVER fails (any depth, chains, single-node levels), returns one record per
+cell, and every record binds every level of the STORED hierarchy to a node of
+that level, consecutive ones related by `child_to_parent` of the stored tree
+(`path`), every level above the leaf level flagged `directly_assigned = False`
+and without runner-ups. -/
+theorem flatten_path {κ} (t0 : RawTree) (cfg : Config) (vote : Oracle κ) (ll : Level)
+    (ids : List CellId) (cells : List κ) (order : List Nat)
+    (hdrop : cfg.dropLevel = none) (hflat : cfg.flatten = true)
+    (hleaf : t0.leafLevel = some ll)
+    (hwf0 : wfb t0 = true) (hwf : wfb t0.flatten = true) (hv : VoteOK t0.flatten vote)
+    (hlen : ids.length = cells.length) (hnd : ids.Nodup)
+    (hproc : 1 ≤ cfg.nProc) (hcs : 1 ≤ cfg.chunkSize)
+    (horder : order.Perm (List.range
+      (chunks cells.length (effChunk cells.length cfg.nProc cfg.chunkSize)).length)) :
+    ∃ out, mapPipeline t0 cfg vote ids cells order = .ok out ∧ out.length = cells.length ∧
+      ∀ o ∈ out, ∃ path : Level → Node,
+        (∀ cp ∈ pairsOf t0.hierarchy.reverse,
+          t0.childToParent cp.1 (path cp.1) = some (path cp.2)) ∧
+        ∀ l ∈ t0.hierarchy, path l ∈ t0.nodesAt l ∧
+          ∃ e', o.levels.lookup l = some e' ∧ e'.assignment = path l ∧
+            (l ≠ ll → e'.direct = some false ∧ e'.ru = none) :=
+  mapPipeline_flatten_paths t0 cfg vote ll ids cells order hdrop hflat hleaf hwf0 hwf hv hlen hnd
+    hproc hcs horder
+
+example : ∃ out, mapPipeline exTree { flatten := true, chunkSize := 2, nProc := 2 } exVote
+    [7, 3, 9] [0, 1, 2] [1, 0] = .ok out ∧ out.length = 3 :=
+  (fun ⟨out, h1, h2, _⟩ => ⟨out, h1, h2⟩) <| flatten_path exTree { flatten := true, chunkSize := 2, nProc := 2 } exVote 2 [7, 3, 9] [0, 1, 2]
+    [1, 0] rfl rfl (by decide) exTree_wf (by decide) (exVote_ok _) rfl (by decide) (by decide)
+    (by decide) (by decide)
+
 end CTM.C01
